@@ -349,6 +349,15 @@ func ruleHpackPrimitives(p *Prog, r *Out) {
 			}
 			return true
 		})
+		props := 0
+		for _, st := range fd.Body.List {
+			if ifs, ok := st.(*ast.IfStmt); ok && squash(p.text(ifs.Cond)) == "err!=nil" {
+				if res := firstReturn(ifs.Body); len(res) == 3 && p.text(res[2]) == "err" {
+					props++
+				}
+			}
+		}
+		r.check(props == 2, "readString returns the errors of its length and its decoding", c.pos, "if err != nil { return ..., err } after readInt and after decoding", fmt.Sprintf("readString propagates %d of its 2 error results (length integer, Huffman decoding): a bad length or bad Huffman data is accepted, or every string is refused", props))
 		r.check(sel, "readString decodes Huffman iff the flag is set", c.pos, "if H { HuffmanDecode } else { append }", "the H flag no longer selects between Huffman decoding and a raw copy")
 	} else {
 		r.undecided("readString", "?", "readString no longer resolves")
@@ -396,10 +405,59 @@ func ruleHpackPrimitives(p *Prog, r *Out) {
 			}
 		}
 		r.check(fresh >= 0 && mark == fresh+1 && lenInt > mark, "appendString length prefix starts a fresh octet", pos, "dst = append(dst, 0); nn := len(dst)-1; appendInt(dst, 7, n)", "the string's length prefix no longer starts in a fresh zero octet whose position is remembered")
+		cleanScratch := false
+		inspectCalls(fd.Body, func(cl *ast.CallExpr) {
+			if p.calleeOf(cl) == "HuffmanEncode" {
+				if _, _, hi, ok := p.sliceBounds(cl.Args[0]); ok && hi == 0 {
+					cleanScratch = true
+				}
+			}
+		})
+		r.check(cleanScratch, "appendString Huffman-encodes into an empty buffer", pos, "HuffmanEncode(scratch[:0], src)", "the Huffman encoding is appended to a non-empty scratch buffer: stale octets are sent as part of the string")
 		r.check(hbit, "appendString sets H iff Huffman", pos, "if encode { dst[nn] |= 128 }", "the H bit is no longer set on the length octet exactly when the string was Huffman-encoded")
 	} else {
 		r.undecided("appendString", "?", "appendString no longer resolves")
 	}
+}
+
+func init() {
+	register(&Rule{
+		Name: "enc-entry-points", Props: []string{"C04", "C01", "C02"}, Engine: "AST", Floor: 2,
+		Doc: "HPACK.AppendHeaderField stores what AppendHeader returns into the HEADERS frame's block, and the size update AppendHeader emits is the 001 pattern with a 5-bit prefix carrying the current table limit",
+		Run: func(p *Prog, r *Out) {
+			if fd := p.decl("(*HPACK).AppendHeaderField"); fd != nil {
+				r.fn("(*HPACK).AppendHeaderField")
+				ok := false
+				for _, s := range fd.Body.List {
+					if as, isA := s.(*ast.AssignStmt); isA && len(as.Lhs) == 1 && p.isFieldSel(as.Lhs[0], "Headers", "rawHeaders") {
+						if cl, isC := as.Rhs[0].(*ast.CallExpr); isC && p.calleeOf(cl) == "(*HPACK).AppendHeader" && p.isFieldSel(cl.Args[0], "Headers", "rawHeaders") {
+							ok = true
+						}
+					}
+				}
+				r.check(ok, "AppendHeaderField extends the frame's header block", p.pos(fd.Pos()), "h.rawHeaders = hp.AppendHeader(h.rawHeaders, hf, store)", "AppendHeaderField no longer stores the encoded field into the HEADERS frame: the field is dropped from the block (and, if it was inserted into the encoder's table, the peer's table no longer matches)")
+			} else {
+				r.undecided("(*HPACK).AppendHeaderField", "?", "no longer resolves")
+			}
+			if fd := p.decl("(*HPACK).AppendHeader"); fd != nil {
+				r.fn("(*HPACK).AppendHeader")
+				ok := false
+				inspectCalls(fd.Body, func(cl *ast.CallExpr) {
+					if p.calleeOf(cl) != "appendInt" || len(cl.Args) != 3 {
+						return
+					}
+					if in, isC := cl.Args[0].(*ast.CallExpr); isC && p.calleeOf(in) == "builtin.append" && len(in.Args) == 2 {
+						pat, ok1 := p.intConst(in.Args[1])
+						bits, ok2 := p.intConst(cl.Args[1])
+						if ok1 && ok2 && pat == 0x20 && bits == 5 && strings.Contains(p.text(cl.Args[2]), "hp.maxTableSize") {
+							ok = true
+						}
+					}
+				})
+				r.check(ok, "size update is 001 + 5-bit-prefix limit", p.pos(fd.Pos()), "appendInt(append(dst, 0x20), 5, maxTableSize)", "the dynamic table size update is no longer emitted as pattern 001 with a 5-bit-prefix integer carrying the table limit (RFC 7541 s6.3)")
+			}
+		},
+	})
 }
 
 // ---------------------------------------------------------------- decoder effects
@@ -437,6 +495,43 @@ func ruleDecEffects(p *Prog, r *Out) {
 	} else {
 		r.bad("block ends on empty input", c.pos, "nextField has no loop label")
 	}
+	// the dispatch octet is the first octet of the input
+	firstOctet := false
+	ast.Inspect(fd.Body, func(n ast.Node) bool {
+		if as, ok := n.(*ast.AssignStmt); ok && len(as.Lhs) == 1 && p.text(as.Lhs[0]) == "c" && squash(p.text(as.Rhs[0])) == cursor+"[0]" {
+			firstOctet = true
+		}
+		return true
+	})
+	r.check(firstOctet, "representation is chosen by the first octet", c.pos, "c = b[0]", "the octet the decoder dispatches on is no longer the first octet of the remaining input")
+	// every integer read propagates its error, and every 'cut short' test is an exact emptiness test
+	ints, intsOK, cuts := 0, 0, 0
+	ast.Inspect(fd.Body, func(n ast.Node) bool {
+		ifs, ok := n.(*ast.IfStmt)
+		if !ok {
+			return true
+		}
+		if as, ok := ifs.Init.(*ast.AssignStmt); ok && len(as.Rhs) == 1 {
+			if cl, ok := as.Rhs[0].(*ast.CallExpr); ok && p.calleeOf(cl) == "readInt" {
+				ints++
+				res := firstReturn(ifs.Body)
+				if squash(p.text(ifs.Cond)) == "err!=nil" && len(res) == 2 && p.text(res[1]) == "err" {
+					intsOK++
+				} else {
+					r.bad("integer read error is returned ("+p.text(cl.Args[0])+"-bit prefix)", p.pos(ifs.Pos()), "the decoder no longer returns the error of `"+p.text(as)+"` (condition `"+p.text(ifs.Cond)+"`): a truncated or overflowing integer is decoded as a value, or every well-formed one is refused")
+				}
+			}
+		}
+		if ifs.Init == nil {
+			if res := firstReturn(ifs.Body); len(res) == 2 && p.text(res[1]) == "ErrUnexpectedSize" && mentionsIdent(ifs.Cond, cursor) {
+				blen := "len(" + cursor + ")"
+				cuts++
+				c.expr(fmt.Sprintf("field cut short test %d", cuts), ifs.Cond, fdeDomain{[]string{blen}, [][]int64{seq(0, 4)}}, nil, func(e fdeEnv) int64 { return b2i(e[blen] == 0) }, "len(b) == 0", "'the value has not arrived yet' holds exactly when no input is left; any other test refuses complete fields or lets an empty input through")
+			}
+		}
+		return true
+	})
+	r.check(ints >= 4 && ints == intsOK, "every integer read propagates its error", c.pos, "if b, n, err = readInt(N, b); err != nil { return b, err }", fmt.Sprintf("%d of %d integer reads in the decoder return their error", intsOK, ints))
 	for ci, cl := range cls {
 		if !cl.ok {
 			continue
